@@ -360,6 +360,15 @@ def run(ctx):
                 SPL = r"Oomd::Util::split\(param:\w+, 47\)"
                 ok_ = re.match(r"^%s\.c?begin\(\)$" % SPL, rng[0]) is not None and re.match(r"^%s\.c?end\(\)$" % SPL, rng[1]) is not None and \
                     (nm != "insert" or re.search(r"cgroup_path_\.c?end\(\)\)?$", aa[0]) is not None)
+            elif nm == "back_inserter":
+                # std::move / std::copy(split(..).begin(), split(..).end(), std::back_inserter(components)): the same whole-range append
+                par_ = f.parent.get(i)
+                while par_ is not None and f.nodes[par_]["k"] in ("cast", "paren", "other", "construct"):
+                    par_ = f.parent.get(par_)
+                pn_ = f.nodes[par_] if par_ is not None else {}
+                SPL = r"Oomd::Util::split\(param:\w+, 47\)"
+                ok_ = pn_.get("k") == "call" and (pn_.get("callee") or "").split("(")[0] in ("std::move", "std::copy") and len(pn_.get("args", [])) == 3 and \
+                    re.match(r"^%s\.c?begin\(\)$" % SPL, Xc(pn_["args"][0])) is not None and re.match(r"^%s\.c?end\(\)$" % SPL, Xc(pn_["args"][1])) is not None
             else:
                 ok_ = False
             ctx.check(ok_, "components-come-from-split:%s@%s:%d" % (f.name, nm, n_.get("line", 0)), "who-may-write + provenance", f.loc(i),
